@@ -9,8 +9,8 @@ def run(tier, seed):
             "a reopen no removed byte may parse as an entry. non-trivial = compared >=1 entry after >=1 reopen; distinct = (feature incl. cut "
             "class / crossed index entry width, files, pointer-file) tuples")
     if tier == "quick":
-        return c02.drive("C03", tier, seed, "truncate", 200, 60, 4, rule, salt=50000)
-    return c02.drive("C03", tier, seed, "truncate", 5000, 90, 16, rule, salt=50000)
+        return c02.drive("C03", tier, seed, "truncate", 200, 60, 6, rule, salt=50000)
+    return c02.drive("C03", tier, seed, "truncate", 5000, 90, 18, rule, salt=50000)
 
 
 def replay(path):
